@@ -11,10 +11,12 @@ package main
 
 import (
 	"context"
+	"encoding/base64"
 	"encoding/json"
 	"fmt"
 	"math"
 	"math/big"
+	"net/url"
 	"os"
 	"os/exec"
 	"reflect"
@@ -1111,6 +1113,92 @@ func runC03(c *Ctx) {
 					fn := tab[nm]
 					r.call(&native{name: nm, arity: 0, iter: fn.Iter, code: compileFor(nm, 0)}, eqs, nil)
 				}
+			}
+		}
+	}
+	// bsearch on sorted arrays (found / insertion point; duplicates in several number representations; long arrays),
+	// and the decoders on the encodings of every string of the universe (decode after encode)
+	if len(only) == 0 || only["bsearch"] {
+		fn := tab["bsearch"]
+		nb := &native{name: "bsearch", arity: 1, iter: fn.Iter, code: compileFor("bsearch", 1)}
+		long := make([]any, 0, 100)
+		for i := 0; i < 100; i++ {
+			long = append(long, i/3*2)
+		}
+		sorted := []any{arr(), arr(1), arr(1, 2, 3), arr(1, 1.0, lit("1"), 2, 2, 5), arr(0, lit("1"), big.NewInt(1), 1.5, lit("2.5"), 3, bigs("9223372036854775808")),
+			arr(nil, false, true, -1, 0.5, 1, "a", "b", arr(), arr(1), obj(), obj("a", 1)), arr("a", "ab", "b"), long,
+			arr(3, 2, 1), arr(1, 3, 2, 3, 1)}
+		targets := []any{nil, false, true, -2, -1, 0, 1, 1.0, lit("1"), lit("1.0"), big.NewInt(1), 1.5, 2, 2.5, 3, 4, 5, 6, 64, 65, 66, 1000, bigs("9223372036854775808"),
+			bigs("9223372036854775809"), "", "a", "aa", "ab", "b", "c", arr(), arr(0), arr(1), arr(2), obj(), obj("a", 1), obj("b", 0), math.NaN(), math.Inf(1)}
+		for _, vs := range sorted {
+			for _, t := range targets {
+				r.call(nb, vs, []any{t})
+			}
+		}
+	}
+	if len(only) == 0 || only["_tobase64d"] || only["_tourid"] {
+		fd, fu := tab["_tobase64d"], tab["_tourid"]
+		nd := &native{name: "_tobase64d", arity: 0, iter: fd.Iter, code: compileFor("_tobase64d", 0)}
+		nu := &native{name: "_tourid", arity: 0, iter: fu.Iter, code: compileFor("_tourid", 0)}
+		for _, v := range all {
+			if str, ok := v.(string); ok && len(str) < 4000 {
+				r.call(nd, base64.StdEncoding.EncodeToString([]byte(str)), nil)
+				r.call(nu, strings.ReplaceAll(url.QueryEscape(str), "+", "%20"), nil)
+			}
+		}
+		for _, str := range []string{"f", "fo", "foo", "foob", "fooba", "foobar", "\x00", "\xff\xfe\xfd", "\xfb\xff\xbf", "a b+c%/?#[]@!$&'()*,;=:~_-."} {
+			r.call(nd, base64.StdEncoding.EncodeToString([]byte(str)), nil)
+			r.call(nu, strings.ReplaceAll(url.QueryEscape(str), "+", "%20"), nil)
+		}
+	}
+	// the domain parts added to Spec.v: implode on non-code-points, ascii_*case on invalid UTF-8, length / abs /
+	// unary minus on negative, fractional, huge and zero json.Number literals
+	if len(only) == 0 || only["implode"] {
+		mk := func(nm string) *native {
+			fn := tab[nm]
+			return &native{name: nm, arity: 0, iter: fn.Iter, code: compileFor(nm, 0)}
+		}
+		ni := mk("implode")
+		for _, in := range []any{arr(65, 1114111, 1114112), arr(-1), arr(55295, 55296, 57343, 57344), arr(65.9, -0.5, 1.5, lit("66.5"), lit("1e1000")),
+			arr(math.NaN()), arr(math.Inf(1), math.Inf(-1)), arr(bigs("9223372036854775808"), 97), arr(lit("97"), lit("55296"), lit("-1")),
+			arr(65, "a"), arr(65, nil), arr(arr(65)), arr(65533), arr(0), arr(127, 128, 2047, 2048, 65535, 65536), arr(math.MaxInt64, math.MinInt64)} {
+			r.call(ni, in, nil)
+		}
+		for _, nm := range []string{"ascii_downcase", "ascii_upcase", "ltrim", "rtrim", "trim", "explode", "length", "utf8bytelength"} {
+			n := mk(nm)
+			for _, in := range []any{"A\xffZ", "\xc3", "a\xc3\x28z", "\xe2\x82", "\xed\xa0\x80Q", "\xf4\x90\x80\x80b", "\xc0\x80A", "Aé\xffÉz\xfe", "\xef\xbf\xbdA", " \xff a ", "\x80"} {
+				r.call(n, in, nil)
+			}
+		}
+		for _, nm := range []string{"length", "abs", "_negate"} {
+			n := mk(nm)
+			for _, t := range []string{"-1.50", "-0", "-0.0", "0", "-1e1000", "1e1000", "-1e-400", "-12345678901234567890", "12345678901234567890", "-9223372036854775808",
+				"9223372036854775808", "-1E2", "-0.1e1", "100", "-100", "-1.7976931348623159e308", "-4.9e-324", "-2e-324"} {
+				r.call(n, lit(t), nil)
+			}
+		}
+	}
+	// .[k] / getpath with every key type: fractional, negative fractional, NaN / infinite and huge indices, null and
+	// boolean keys, array keys (sub-array search), slice objects with fractional / missing / ill-typed bounds, on
+	// arrays, strings (valid and invalid UTF-8), null, objects and scalars
+	if len(only) == 0 || only["_index"] || only["getpath"] {
+		fi, fg := tab["_index"], tab["getpath"]
+		nidx := &native{name: "_index", arity: 2, iter: fi.Iter, code: compileFor("_index", 2)}
+		ngp := &native{name: "getpath", arity: 1, iter: fg.Iter, code: compileFor("getpath", 1)}
+		vals := []any{nil, arr(), arr(1, 2, 3), arr(1, 2, 1, 2, 3), "", "abc", "日本語x", "a\xffb\xc3", obj(), obj("a", arr(1, 2, 3), "b", "xyz"), 1, true,
+			arr(arr(1, 2), obj("a", 1), "str", nil)}
+		keys := []any{0, 1, 2, 3, -1, -3, -4, 1.5, -1.5, -0.5, 0.5, 2.9, math.NaN(), math.Inf(1), math.Inf(-1), lit("1.5"), lit("-1.5"), lit("1e1000"), 1e300,
+			bigs("9223372036854775808"), bigs("-9223372036854775809"), math.MaxInt64, math.MinInt64, nil, true, false, "a", "b", "",
+			arr(), arr(2), arr(1, 2), arr(arr(1, 2)), obj(), obj("start", 1), obj("end", 1), obj("start", 1, "end", nil), obj("start", nil, "end", 2),
+			obj("start", 0.5, "end", 2.5), obj("start", -1.5, "end", nil), obj("start", "a", "end", 1), obj("start", 1, "end", "a"),
+			obj("start", lit("0.5"), "end", lit("1.5")), obj("start", -2, "end", -1), obj("start", 2, "end", 1), obj("start", math.NaN(), "end", math.Inf(1))}
+		for _, v := range vals {
+			for _, k := range keys {
+				r.call(nidx, nil, []any{v, k})
+				r.call(ngp, v, []any{arr(k)})
+				r.call(ngp, v, []any{arr(k, 0)})
+				r.call(ngp, v, []any{arr("a", k)})
+				r.call(ngp, v, []any{arr(3, k)})
 			}
 		}
 	}
